@@ -75,7 +75,6 @@ require (
 	github.com/multiformats/go-base36 v0.2.0 // indirect
 	github.com/multiformats/go-multiaddr-dns v0.4.1 // indirect
 	github.com/multiformats/go-multiaddr-fmt v0.1.0 // indirect
-	github.com/multiformats/go-multibase v0.2.0 // indirect
 	github.com/multiformats/go-multistream v0.6.0 // indirect
 	github.com/munnerz/goautoneg v0.0.0-20191010083416-a7dc8b61c822 // indirect
 	github.com/onsi/ginkgo/v2 v2.22.2 // indirect
@@ -131,6 +130,9 @@ require (
 	lukechampine.com/blake3 v1.4.0 // indirect
 )
 
-require github.com/ipni/go-libipni v0.0.0
+require (
+	github.com/ipni/go-libipni v0.0.0
+	github.com/multiformats/go-multibase v0.2.0
+)
 
 replace github.com/ipni/go-libipni => /repo
